@@ -34,6 +34,7 @@ THEOREMS = [
     "C16_names_unique_readd_refuted",
     "C16_names_unique_same_batch",
     "C16_names_unique_within_call",
+    "C16_names_unique_accepted_histories",
     "C16_names_unique_after_rejected_batch_refuted",
     "C16_names_unique_inner_title_rejected",
     "C16_split_permutation",
